@@ -133,9 +133,17 @@ type Scratch struct {
 	tlcN   int
 }
 
+// scratchGoCache: the Go build cache of this run lives inside the scratch directory, so that
+// the build output of the scratch copy goes away with it (the shared cache would keep about
+// 150 MB per run for good: its keys contain the scratch path, which is new every time).
+var scratchGoCache string
+
 func goEnv() []string {
 	env := os.Environ()
 	env = append(env, "GOFLAGS=-mod=mod", "GOPROXY=off", "GOSUMDB=off", "GOTOOLCHAIN=local")
+	if scratchGoCache != "" {
+		env = append(env, "GOCACHE="+scratchGoCache)
+	}
 	return env
 }
 
@@ -183,6 +191,10 @@ func NewScratch(probes bool, extra string) (*Scratch, error) {
 	}
 	s := &Scratch{Dir: dir, Repo: filepath.Join(dir, "repo")}
 	if err := os.MkdirAll(s.Repo, 0o755); err != nil {
+		return nil, err
+	}
+	scratchGoCache = filepath.Join(dir, "gocache")
+	if err := os.MkdirAll(scratchGoCache, 0o755); err != nil {
 		return nil, err
 	}
 	if err := copyTree(repoDir, s.Repo); err != nil {
